@@ -12,6 +12,7 @@ import (
 	authtypes "github.com/cosmos/cosmos-sdk/x/auth/types"
 	banktypes "github.com/cosmos/cosmos-sdk/x/bank/types"
 	distrtypes "github.com/cosmos/cosmos-sdk/x/distribution/types"
+	minttypes "github.com/cosmos/cosmos-sdk/x/mint/types"
 	transfertypes "github.com/cosmos/ibc-go/v10/modules/apps/transfer/types"
 	channeltypes "github.com/cosmos/ibc-go/v10/modules/core/04-channel/types"
 
@@ -56,6 +57,7 @@ type rwWorker struct {
 	rootVs []V
 	payer  env.Acct
 	ibcD   string // the consumer's fee denom as it is called on the provider
+	seeded int64  // voucher coins minted by the fixture for consumer 1's credit
 }
 
 const feeDenom, otherDenom = "stake", "unotallowed"
@@ -97,6 +99,13 @@ func (c Rewards) NewWorker(stats *engine.Stats) (engine.Worker, error) {
 	if err := must(&st, env.MsgSetCommission(p.Vals[0], "0", "0.5")); err != nil {
 		return nil, err
 	}
+	// a second launched consumer that will hold a credit in the same denom without allow-listing it
+	if err := must(&st, env.MsgCreateConsumer(A, "cons-s", env.ConsumerInit{Spawn: st.Time()}.Params("cons-s"), nil)); err != nil {
+		return nil, err
+	}
+	if err := must(&st, env.MsgOptIn(p.Vals[0], "1", nil)); err != nil {
+		return nil, err
+	}
 	n := &rwNode{XNode: &XNode{P: st, C: map[string]env.State{}, L: map[string]env.Link{}}}
 	if r := xw.PBlock(n.XNode, 0, nil); r.Halt() != "" {
 		return nil, fmt.Errorf("prefix block: %s", r.Halt())
@@ -121,6 +130,18 @@ func (c Rewards) NewWorker(stats *engine.Stats) (engine.Worker, error) {
 			return nil, fmt.Errorf("prefix block: %s", r.Halt())
 		}
 	}
+	n.touchP()
+	other := sdk.NewCoins(sdk.NewInt64Coin(w.ibcD, 55))
+	if err := p.PApp.BankKeeper.MintCoins(n.P.Ctx, minttypes.ModuleName, other); err != nil {
+		return nil, err
+	}
+	if err := p.PApp.BankKeeper.SendCoinsFromModuleToModule(n.P.Ctx, minttypes.ModuleName, providertypes.ConsumerRewardsPool, other); err != nil {
+		return nil, err
+	}
+	if err := p.K.SetConsumerRewardsAllocationByDenom(n.P.Ctx, "1", w.ibcD, providertypes.ConsumerRewardsAllocation{Rewards: sdk.NewDecCoinsFromCoins(other...)}); err != nil {
+		return nil, err
+	}
+	w.seeded = 55
 	w.root = n
 	w.build()
 	return w, nil
@@ -240,7 +261,7 @@ func (w *rwWorker) build() {
 func (w *rwWorker) conservation(c *rwNode, when string) []V {
 	l := c.L["0"]
 	escrow := w.w.CA.CApp.BankKeeper.GetBalance(c.C["0"].Ctx, transfertypes.GetEscrowAddress("transfer", l.XCChan), feeDenom).Amount
-	minted := w.p.PApp.BankKeeper.GetSupply(c.P.Ctx, w.ibcD).Amount
+	minted := w.p.PApp.BankKeeper.GetSupply(c.P.Ctx, w.ibcD).Amount.SubRaw(w.seeded)
 	if !escrow.Equal(minted.AddRaw(c.InFlight)) {
 		return []V{vf("C16", "cross-chain-conservation", "%s: %s escrowed on the consumer, %s exist on the provider, %d in flight", when, escrow, minted, c.InFlight)}
 	}
@@ -447,6 +468,17 @@ func (w *rwWorker) pblock(x *rwNode) (engine.Node, []V) {
 	_ = midCtx
 	post := w.dist(c.P.Ctx)
 	postCredit := w.credit(c.P.Ctx)
+	// consumer 1 never allow-listed the denom: its credit is paid only once governance registers it
+	if a, err := p.K.GetConsumerRewardsAllocationByDenom(c.P.Ctx, "1", w.ibcD); err == nil {
+		pre1, _ := p.K.GetConsumerRewardsAllocationByDenom(x.P.Ctx, "1", w.ibcD)
+		registered := p.K.ConsumerRewardDenomExists(x.P.Ctx, w.ibcD)
+		if !registered && !a.Rewards.AmountOf(w.ibcD).Equal(pre1.Rewards.AmountOf(w.ibcD)) {
+			vs = append(vs, vf("C16", "credit-paid-in-denom-not-allowed-for-that-consumer", "consumer 1 holds a credit in %s which neither it allow-listed nor governance registered; the credit went %s -> %s", w.ibcD, pre1.Rewards, a.Rewards))
+		}
+		if !registered {
+			w.stats.Count("foreign-credit-kept")
+		}
+	}
 	paidVals := math.LegacyZeroDec()
 	for i := range vals {
 		paidVals = paidVals.Add(post.outstanding[i].Sub(mid.outstanding[i]))
